@@ -148,6 +148,7 @@ type vfC09pmH struct {
 	pend          map[string]vfC09pmPend
 	lastEv        map[string]string
 	closedOK      bool                   // a Close issued after Start has returned
+	final         bool                   // the walk is over: the loop runs freely, only the end conditions are checked
 	asked         map[string]*vfC09pmLog // answer given to the loop and not yet acted upon (stepwise runs)
 	lastTickGrant time.Duration
 	tickGranted   bool
@@ -429,6 +430,9 @@ func (h *vfC09pmH) closeWaiting() int {
 
 // finish ends a walk whatever state it is in; reports what must hold at the very end.
 func (h *vfC09pmH) finish(report func(cls, what string)) {
+	// everything the harness knew about what the loop remembers is void once the loop runs freely
+	h.pend = map[string]vfC09pmPend{}
+	h.final = true
 	h.mu.Lock()
 	h.free = true
 	h.mu.Unlock()
@@ -506,6 +510,9 @@ func (h *vfC09pmH) collect(rep func(cls, what string)) (queries []vfC09pmLog, re
 			lastQ[l.peer] = &logs[i]
 		case "remove":
 			removes = append(removes, l)
+			if h.final {
+				continue
+			}
 			pd, remembered := h.pend[l.peer]
 			atExit := exited && h.cancelSet && lastQ[l.peer] == nil && h.askedReply(l.peer) == nil
 			if !remembered || h.lastEv[l.peer] != "N" {
@@ -849,6 +856,15 @@ func vfC09pmWalk(t *testing.T, res *vfh.Result, cfg vfC09pmCfg, w vfh.Walk) {
 			}
 		}
 		res.Count(1, steps)
+		perPeer := map[string]int{}
+		for _, l := range h.logs {
+			if l.kind == "remove" {
+				perPeer[l.peer]++
+				if perPeer[l.peer] == 2 {
+					res.Inc("second_removals", 1)
+				}
+			}
+		}
 		if len(res.Samples) < 2 && len(w.Steps) > 6 {
 			res.Sample(map[string]any{"instance": cfg.name, "walk": w.Walk, "ops": prefix})
 		}
